@@ -111,6 +111,26 @@ def gen_cases(ctx, tier):
             tree["lp/.keep"] = ""
         c.update(flags())
         cases.append(c)
+    # several input files with --load-path: the load path must serve EVERY input, not only the first
+    for i in range(max(8, n // 10)):
+        k = rng.choice([2, 2, 3])
+        needs = [rng.random() < 0.6 for _ in range(k)]
+        if not any(needs[1:]):
+            needs[rng.randint(1, k - 1)] = True
+        tree = {"lp/_dep.scss": "dep{from:loadpath}\n", "lp/other.scss": "other{from:loadpath2}\n"}
+        files = []
+        for j in range(k):
+            name = f"src/m{j}.scss"
+            if needs[j]:
+                form = rng.choice(['@use "dep";', '@import "dep";', '@use "other";', '@forward "dep";'])
+                tree[name] = f"{form}\nm{j}{{k:mark{j}x}}\n"
+            else:
+                tree[name] = sheetgen.gen_sheet(rng, 0.0)
+            files.append(name)
+        c = {"tree": tree, "files": files, "lp": "lp", "must": ["loadpath"] + [f"mark{j}x" for j in range(k) if needs[j]],
+             "mustnot": [], "layout": "multi-lp"}
+        c.update(flags())
+        cases.append(c)
     # nested layouts (rsass 3dfdada): a dependency loaded from a file in a sub directory is looked up relative to that
     # file first, then unchanged in the input's directory, then in the load path
     for i in range(max(6, n // 12)):
